@@ -2,6 +2,7 @@ mod comps;
 mod drive;
 mod h;
 mod json;
+mod nest;
 mod queries;
 mod reg;
 mod world;
@@ -40,6 +41,15 @@ fn main() {
                 drive::run_one(&mut hh, &mut r, &prof);
             }
             hh.op_reset();
+        }
+        "nest" => {
+            let input: String = arg(&args, "--in", String::new());
+            let (n, p) = nest::run(&input, &mut hh.out, args.iter().any(|a| a == "--ar-empty"));
+            eprintln!("scripts={} unwound={}", n, p);
+        }
+        "boundary" => {
+            hh.decl();
+            drive::boundary(&mut hh);
         }
         _ => {
             eprintln!("usage: gvh drive --seed N --runs N --steps N --out FILE");
